@@ -25,9 +25,40 @@ PROPS = {
     },
 }
 
+PROPS.update({
+    "C13": {
+        "prop_file": "props/C13.v",
+        "scenarios": [{"name": "open-c13"}],
+        "rule": "byte strings: every truncation (crash point) of small generated files and the last 80 of larger ones, single-byte corruptions of the 22 trailer bytes, every length 4..30 x codec byte 0..7 x both magics, all strings of length <=3 over a 6-symbol alphabet followed by a magic, random strings of length 0..64; distinct by the last 64 bytes; non-trivial = at least 4 bytes long (the magic can be read)",
+        "trusted": ["std::io::Cursor semantics of SeekFrom::End and read_exact as modelled in Trailer.v (seek_end, read_exact_at)"],
+        "assumptions": ["the source is an in-memory byte string (Cursor<&[u8]>); other Read+Seek sources may report different io::ErrorKind for a negative seek"],
+        "not_proved": [],
+    },
+    "C10": {
+        "prop_file": "props/C10.v",
+        "scenarios": [{"name": "hist-c10"}],
+        "rule": "single-level files of every codec/block size/interval, each re-trailed with a hand-assembled 21-byte V1 trailer; the same random cursor history is run on the V1 and V2 variants and compared with the model and with the sorted-list specification; non-trivial = file with >= 2 entries and >= 2 operations, distinct by file+history hash",
+        "trusted": [],
+        "assumptions": ["functional_extensionality_dep (Coq standard library axiom) is used by C10_cursor_depends_on_loader_only"],
+        "not_proved": ["C10_v1_same_results (every scan/seek/range/prefix result on a V1 file equals the V2 result) is reduced to C10_load_ignores_trailer + C10_cursor_depends_on_loader_only + 'every offset the cursor loads lies inside the body', the last of which needs the reader refinement R (DESIGN 4) and is so far validated by the correspondence only"],
+    },
+})
+
 NOT_APPLICABLE = {}
 
 MANIFEST_TEXT = {
+    "C13": {
+        "text": "Theorems C13_no_panic and C13_open_iff prove for EVERY byte string that the transcribed Metadata::read_from never panics and succeeds exactly when the string ends in a complete V1/V2 trailer with a known codec id (literals of the property text, tied to the code's constants by C13_constants over the re-extracted Consts.v); C13_truncations instantiates it at every crash point. The transcription is validated every run against Reader::new on all truncations/corruptions/short strings generated.",
+        "design_ref": "DESIGN.md §5 C13",
+        "note": "Trusted: Coq kernel; std::io::Cursor seek/read_exact semantics as modelled; the transcription of metadata.rs (validated by the correspondence); extraction, driver, harness. Axioms: none.",
+        "technique": "Rocq proof (exhaustive case analysis of the trailer reader over arbitrary byte strings) + model/implementation differential execution",
+    },
+    "C10": {
+        "text": "C10_v1_open proves that the 21-byte V1 trailer of the property text opens as version 1 with the stored count/codec and index_levels 0 for every body; C10_load_ignores_trailer and C10_cursor_depends_on_loader_only prove that block loads inside the body and hence all cursor results cannot depend on which trailer follows. The remaining step (all loaded offsets lie inside the body) is validated by running identical histories on V1 and V2 variants of generated files through implementation, model and specification.",
+        "design_ref": "DESIGN.md §5 C10",
+        "note": "Partial proof: see not_proved in the evidence. Axiom: functional_extensionality_dep (stdlib). Trusted: kernel, transcription of metadata.rs/reader_cursor.rs (validated by correspondence), extraction, driver, harness.",
+        "technique": "Rocq proof (trailer layout, frame locality) + model/implementation/specification differential execution on V1 vs V2 files",
+    },
     "C14": {
         "text": "Theorems C14_varint / C14_varint_no_panic / C14_lengths prove, for all 2^32 lengths and arbitrary trailing bytes, that the transcribed varint_encode32/varint_decode32 round-trip in 1..5 bytes consuming exactly those bytes (base-128 digit arithmetic, no enumeration). The transcription is tied to src/varint.rs by running both on boundary neighbourhoods and stratified random values every run (thorough: all 2^32 values through the implementation against the statement).",
         "design_ref": "DESIGN.md §5 C14",
